@@ -246,8 +246,8 @@ def check_tmpl(cx, chk):
     seen = {}
     H = lambda n: ("hole", n)
     skip_pat = ["parse_Whitespace", ("group", "Parenthesis", [H("state"), ",", "&", "mut", "*", "global"]), ".", "and_then",
-                ("group", "Parenthesis", ["|", "ParseOk", ("group", "Brace", ["state", ",", ".."]), "|",
-                                          ("group", "Brace", [H("fn"), ("group", "Parenthesis", ["state", ",", H("params")])])])]
+                ("group", "Parenthesis", ["|", "ParseOk", ("group", "Brace", [("var", "st"), ",", ".."]), "|",
+                                          ("group", "Brace", [H("fn"), ("group", "Parenthesis", [("var", "st"), ",", H("params")])])])]
     plain_pat = [H("fn"), ("group", "Parenthesis", [H("state"), ",", H("params")])]
     for (atoms, v, pth) in rows:
         flag = [val for (e, val) in atoms if e[0] == "field" and e[2] == "skip_whitespace"]
